@@ -15,7 +15,7 @@ RULE = ('E1 enumeration (complete product): flag in {none, *, +} on a plane and 
         '--skip-deduplication; oracle: BOUNDARY_CONDITION block has exactly one ALL_COMPLETE REFLECTION|COSINUS '
         'entry per flagged surface bounding a converted cell, its id is a SURF of the file with the flagged '
         'surface\'s polynomial, no other entries, declared count right; flagged macrobody -> error; '
-        'non-trivial = at least one flag; distinct = deck text + options; also: three coincident cards in every order with the flag on each, flagged twin, flagged plane inside a universe used twice, 12-1100 flagged planes')
+        'non-trivial = at least one flag; distinct = deck text + options; also: three coincident cards in every order with the flag on each, flagged twin, flagged plane inside a universe used twice, 12-1100 flagged planes; --skip-compositions / --skip-geomcomp crossed with the flags')
 ASSUMPTIONS = ['* = reflecting -> REFLECTION, + = white -> COSINUS',
                'a flagged surface that bounds no converted cell needs no entry; an entry naming a surface absent '
                'from the file is a violation']
